@@ -371,6 +371,22 @@ func ruleR42(c *Ctx) *RuleResult {
 					if failed == "" {
 						failed = "the initial shape is inconsistent with the balance factors the path knows"
 					}
+					// rotating through a node whose factor the path never looked at, and then writing factors that are
+					// constants: the right factors depend on that node's (a double rotation hands the pivot's lean to the two
+					// nodes it ends up above), so no constants can be right for all its values — unless some stored factor is
+					// itself computed from a loaded factor (an arithmetic spelling the replay does not follow: no verdict)
+					if strings.Contains(failed, "without knowing its balance factor") {
+						computed := false
+						for _, ef := range g.Effects {
+							if storeToField(ef, "b") && ef.Args[1].any(func(t *Term) bool { return t.Op == "fa" && t.Leaf == "b" }) {
+								computed = true
+							}
+						}
+						if !computed {
+							bad = append(bad, where+": "+failed+", yet writes constant factors (the factors after this rotation depend on it)")
+							continue
+						}
+					}
 					skipped = append(skipped, where+": "+failed)
 					continue
 				}
